@@ -50,6 +50,31 @@ def run_contract(chk: Check, recs: List[dict]) -> None:
                 chk.ok("C10.R2", "C10.R2", label, where=WHERE)
 
 
+def run_near_misses(chk: Check, lengths) -> None:
+    """Malformed inputs beyond the exhaustive bound: one token deleted from / the last token replaced in a derivable
+    sequence.  Every one must end in an exception of the contract."""
+    from sa.parsecases import analyse_near_misses
+    chk.rule("C10.R5", "truncated / one-token-off inputs of 6 (thorough 7) tokens end in an exception of the contract",
+             minimum=10000)
+    for n in lengths:
+        ok, bad = analyse_near_misses(str(REPO), n)
+        chk.analysed[f"near_miss_paths_{n}"] = ok + len(bad)
+        for i in range(min(ok, 12000)):
+            chk.ok("C10.R5", "C10.R5", f"near-miss sequence #{i} of length {n}", where=WHERE)
+        for r in bad:
+            label = f"{r['surface']!r} ({' '.join(r['tokens'])})"
+            if r["outcome"] == "raise":
+                chk.fail("C10.R5", f"C10.R1:{r['exc']}@{r['site'].split(':L')[0]}", label,
+                         f"{r['exc']} escapes parse() ({r.get('detail')}); the contract allows ParserException subclasses and "
+                         f"ValueError only", witness={"input": r["surface"], "tokens": r["tokens"], "site": r["site"]},
+                         where=r["site"].split(":L")[0])
+            elif r["outcome"] == "bound":
+                chk.fail("C10.R5", "C10.R2:no-termination", label, f"the parser does not finish within the path budget: {r.get('note')}",
+                         witness={"input": r["surface"]}, where=WHERE)
+            else:
+                chk.info("C10.R5", "C10.R5:accepted", label, "accepted although not derivable (acceptance is C03's clause)")
+
+
 def production_graph(prog: Program) -> Tuple[Dict[str, List[Tuple[str, bool, str]]], List[str]]:
     cls = prog.cls("ExpressionParser")
     prods = [n for n in cls.methods if n.startswith("parse_") or n == "_parse"]
@@ -166,6 +191,7 @@ def run(chk: Check) -> None:
     recs = analyse_parser(str(REPO), n)
     chk.analysed["parser_paths_instantiated"] = len(recs)
     run_contract(chk, recs)
+    run_near_misses(chk, (6,) if chk.tier == "quick" else (6, 7))
     run_recursion(chk, prog)
     scen = analyse_scenarios(str(REPO), 2 if chk.tier == "quick" else 3)
     chk.analysed["scenario_paths"] = len(scen)
